@@ -61,6 +61,7 @@ type GenSpec struct {
 	KeepFiles  bool
 	CloseTail  bool // close collection/store with handles open, re-read, close handles in any order
 	KeyPoolMax int
+	ChildPct   int // probability (%) that a top-level batch mentions children; default 35
 	ReopenCfg  bool // reopen may change options
 	Compaction []int // choices; nil = {0,1,2}
 	// NoChildOnly excludes batches whose top level is empty while children
@@ -218,6 +219,9 @@ func (g *genState) genBatch(t *rapid.T, cur *Node, depth int, path string) *Batc
 	}
 	if g.spec.Children && depth < 3 {
 		p := 35
+		if g.spec.ChildPct > 0 {
+			p = g.spec.ChildPct
+		}
 		if depth > 0 {
 			p = 20
 		}
@@ -349,6 +353,14 @@ var mstepKinds = []string{"", "mergeAll", "from-idle-merger"}
 func genHistory(t *rapid.T, spec *GenSpec) (*Program, int) {
 	p := &Program{Prop: spec.Prop}
 	p.Cfg = genConfig(t, spec)
+	if p.Cfg.Backing == "ll" && spec.Children && !spec.NoRecreate {
+		// An application lower level has no notion of child incarnations
+		// (the Snapshot interface carries none), so delete + recreate of a
+		// child name is outside what it can represent.
+		sp := *spec
+		sp.NoRecreate = true
+		spec = &sp
+	}
 	g := &genState{spec: spec, model: NewNode(), deadKids: map[string]bool{}}
 	g.keys = genKeyPool(t, spec.Hostile, spec.KeyPoolMax)
 	maxOps := spec.MaxOps
